@@ -1,0 +1,665 @@
+//go:build verif
+// +build verif
+
+package raft
+
+// Hook API for the conndiff correspondence engine (property C20).
+//
+// Nothing here changes behaviour. The file adds an in-memory network of
+// net.Pipe connections and exported entry points that let an external package
+// drive the REAL connPool.getConn/doRPC/returnConn/closeAll,
+// resolver.update/lookupID, Raft.getConnPool, server.serve/handleConn and the
+// identity branch of Raft.replyRPC, without running whole nodes, plus wrappers
+// for lockDir/unlockDir.
+//
+// What is NOT the real code on the listener side: the consumer of rpcCh. For an
+// identityReq it calls the real replyRPC; for any other request it does what
+// replyRPC does before calling onRequest (decode the request of a fromLeader
+// type from the connection), records that the request reached onRequest, and
+// answers with createResp(success).
+
+import (
+	"context"
+	"errors"
+	"fmt"
+	"net"
+	"sync"
+	"sync/atomic"
+	"time"
+)
+
+// VerifRPCTimeout is the deadline given to every call made through the hooks.
+var VerifRPCTimeout = 5 * time.Second
+
+// ---------------------------------------------------------------- the network
+
+// VerifNet is an in-memory network: address -> listener, connections are net.Pipe pairs.
+type VerifNet struct {
+	mu        sync.Mutex
+	listeners map[string]*VerifListener
+	pipes     []*VerifPipe
+	processed []VerifProcessed
+	nextPID   int
+	dialers   []*VerifDialer
+}
+
+func NewVerifNet() *VerifNet {
+	return &VerifNet{listeners: map[string]*VerifListener{}}
+}
+
+// VerifPipe is one connection ever dialled; ID is its index in dial order.
+type VerifPipe struct {
+	ID          int
+	Lib         bool   // dialled by connPool.getConn
+	Dialer      int    // index of the dialer
+	SrcCID      uint64 // identity of the dialing node
+	SrcNID      uint64
+	IntendedCID uint64 // pool.cid
+	IntendedNID uint64 // pool.nid
+	PID         int    // listener process it is attached to
+	client      *verifEnd
+	server      *verifEnd
+}
+
+type verifEnd struct {
+	net.Conn
+	pipe    *VerifPipe
+	closed  int32
+	reading int32
+}
+
+func (e *verifEnd) Read(b []byte) (int, error) {
+	atomic.AddInt32(&e.reading, 1)
+	n, err := e.Conn.Read(b)
+	atomic.AddInt32(&e.reading, -1)
+	return n, err
+}
+
+func (e *verifEnd) Close() error {
+	atomic.StoreInt32(&e.closed, 1)
+	return e.Conn.Close()
+}
+
+func (e *verifEnd) isClosed() bool { return atomic.LoadInt32(&e.closed) == 1 }
+func (e *verifEnd) parked() bool   { return atomic.LoadInt32(&e.reading) > 0 }
+
+var errVerifRefused = errors.New("verif: connection refused")
+
+// dial connects to whatever listens at addr.
+func (n *VerifNet) dial(addr string, meta VerifPipe) (net.Conn, *VerifPipe, error) {
+	n.mu.Lock()
+	defer n.mu.Unlock()
+	l := n.listeners[addr]
+	if l == nil {
+		return nil, nil, errVerifRefused
+	}
+	c, s := net.Pipe()
+	p := &meta
+	p.ID = len(n.pipes)
+	p.PID = l.PID
+	p.client = &verifEnd{Conn: c, pipe: p}
+	p.server = &verifEnd{Conn: s, pipe: p}
+	select {
+	case l.lr.ch <- p.server:
+	case <-l.lr.closed:
+		_ = c.Close()
+		_ = s.Close()
+		return nil, nil, errVerifRefused
+	}
+	n.pipes = append(n.pipes, p)
+	return p.client, p, nil
+}
+
+// Quiesce waits until every listener-side connection end is either closed or
+// parked in Read at the top of handleConn's loop with the dialer's end still open
+// (a parked Read whose peer has closed is about to return).
+func (n *VerifNet) Quiesce() bool {
+	deadline := time.Now().Add(VerifRPCTimeout)
+	for {
+		n.mu.Lock()
+		busy := false
+		for _, p := range n.pipes {
+			if !p.server.isClosed() && (!p.server.parked() || p.client.isClosed()) {
+				busy = true
+				break
+			}
+		}
+		n.mu.Unlock()
+		if !busy {
+			return true
+		}
+		if time.Now().After(deadline) {
+			return false
+		}
+		time.Sleep(20 * time.Microsecond)
+	}
+}
+
+// VerifPipeState is the observable state of one connection.
+type VerifPipeState struct {
+	ID             int    `json:"id"`
+	Lib            bool   `json:"lib"`
+	Dialer         int    `json:"dialer"`
+	IntendedCID    uint64 `json:"icid"`
+	IntendedNID    uint64 `json:"inid"`
+	PID            int    `json:"pid"`
+	DialerClosed   bool   `json:"dclosed"`
+	ListenerClosed bool   `json:"lclosed"`
+	Pooled         bool   `json:"pooled"`
+}
+
+// Pipes returns the state of every connection ever dialled.
+func (n *VerifNet) Pipes() []VerifPipeState {
+	n.mu.Lock()
+	defer n.mu.Unlock()
+	pooled := map[*verifEnd]bool{}
+	for _, d := range n.dialers {
+		for _, pool := range d.r.connPools {
+			pool.mu.Lock()
+			for _, c := range pool.conns {
+				if e, ok := c.rwc.(*verifEnd); ok {
+					pooled[e] = true
+				}
+			}
+			pool.mu.Unlock()
+		}
+	}
+	out := []VerifPipeState{}
+	for _, p := range n.pipes {
+		out = append(out, VerifPipeState{
+			ID: p.ID, Lib: p.Lib, Dialer: p.Dialer, IntendedCID: p.IntendedCID, IntendedNID: p.IntendedNID,
+			PID: p.PID, DialerClosed: p.client.isClosed(), ListenerClosed: p.server.isClosed(),
+			Pooled: pooled[p.client],
+		})
+	}
+	return out
+}
+
+// VerifProcessed is one request that got as far as Raft.onRequest on a listener.
+type VerifProcessed struct {
+	Conn        int    `json:"conn"`
+	Lib         bool   `json:"lib"`
+	PID         int    `json:"pid"`
+	ListenerCID uint64 `json:"lcid"`
+	ListenerNID uint64 `json:"lnid"`
+	IntendedCID uint64 `json:"icid"`
+	IntendedNID uint64 `json:"inid"`
+	SrcCID      uint64 `json:"scid"`
+	SrcNID      uint64 `json:"snid"`
+	Kind        int    `json:"kind"` // rpcType
+	SrcField    uint64 `json:"src"`  // req.src as decoded
+}
+
+// Processed returns everything that reached onRequest anywhere, oldest first.
+func (n *VerifNet) Processed() []VerifProcessed {
+	n.mu.Lock()
+	defer n.mu.Unlock()
+	return append([]VerifProcessed{}, n.processed...)
+}
+
+// ---------------------------------------------------------------- listener
+
+type verifPipeListener struct {
+	ch     chan net.Conn
+	closed chan struct{}
+	once   sync.Once
+}
+
+func (l *verifPipeListener) Accept() (net.Conn, error) {
+	select {
+	case c := <-l.ch:
+		return c, nil
+	case <-l.closed:
+		return nil, errors.New("verif: listener closed")
+	}
+}
+func (l *verifPipeListener) Close() error   { l.once.Do(func() { close(l.closed) }); return nil }
+func (l *verifPipeListener) Addr() net.Addr { return verifAddr("pipe") }
+
+type verifAddr string
+
+func (a verifAddr) Network() string { return "pipe" }
+func (a verifAddr) String() string  { return string(a) }
+
+// VerifListener owns a minimal *Raft (identity only) behind the real server.
+type VerifListener struct {
+	PID  int
+	Addr string
+	CID  uint64
+	NID  uint64
+
+	net  *VerifNet
+	r    *Raft
+	s    *server
+	lr   *verifPipeListener
+	done chan struct{} // serve returned and the rpcCh consumer drained
+
+	mu           sync.Mutex
+	Disconnected []uint64
+}
+
+// StartListener starts a node with identity (cid, nid) serving at addr. Whatever
+// served there before is shut down first (its connections are closed).
+func (n *VerifNet) StartListener(addr string, cid, nid uint64) *VerifListener {
+	n.StopListener(addr)
+	r := &Raft{
+		rtime:        newRandTime(),
+		rpcCh:        make(chan *rpc),
+		disconnected: make(chan uint64, 20),
+		storage:      &storage{cid: cid, nid: nid},
+		hbTimeout:    VerifRPCTimeout,
+		logger:       nopLogger{},
+		alerts:       nopAlerts{},
+		close:        make(chan struct{}),
+		closed:       make(chan struct{}),
+	}
+	l := &VerifListener{
+		Addr: addr, CID: cid, NID: nid, net: n, r: r,
+		lr:   &verifPipeListener{ch: make(chan net.Conn), closed: make(chan struct{})},
+		done: make(chan struct{}),
+	}
+	l.s = newServer(r, l.lr)
+	n.mu.Lock()
+	l.PID = n.nextPID
+	n.nextPID++
+	n.listeners[addr] = l
+	n.mu.Unlock()
+
+	stopDrain := make(chan struct{})
+	go func() { // stateLoop's `case nid := <-r.disconnected`
+		for {
+			select {
+			case nid := <-r.disconnected:
+				l.mu.Lock()
+				l.Disconnected = append(l.Disconnected, nid)
+				l.mu.Unlock()
+			case <-stopDrain:
+				return
+			}
+		}
+	}()
+	go l.s.serve() // the real accept loop; closes r.rpcCh when it returns
+	go func() {    // stateLoop's `case rpc := <-r.rpcCh`
+		for rpc := range r.rpcCh {
+			l.reply(rpc)
+		}
+		close(stopDrain)
+		close(l.done)
+	}()
+	return l
+}
+
+// reply plays `resetTimer := r.replyRPC(rpc)` for one request.
+func (l *VerifListener) reply(rpc *rpc) {
+	r := l.r
+	if _, ok := rpc.req.(*identityReq); ok {
+		r.replyRPC(rpc) // the real identity branch
+		return
+	}
+	// replyRPC up to the call of onRequest
+	if rpc.req.rpcType().fromLeader() {
+		err := rpc.conn.rwc.SetReadDeadline(r.rtime.deadline(r.hbTimeout))
+		if err == nil {
+			err = rpc.req.decode(rpc.conn.bufr)
+		}
+		if err != nil {
+			rpc.readErr = err
+			close(rpc.done)
+			return
+		}
+	}
+	// here replyRPC calls r.onRequest(rpc.req, rpc.conn)
+	rec := VerifProcessed{Conn: -1, PID: l.PID, ListenerCID: r.cid, ListenerNID: r.nid,
+		Kind: int(rpc.req.rpcType()), SrcField: rpc.req.from()}
+	if e, ok := rpc.conn.rwc.(*verifEnd); ok {
+		p := e.pipe
+		rec.Conn, rec.Lib = p.ID, p.Lib
+		rec.IntendedCID, rec.IntendedNID = p.IntendedCID, p.IntendedNID
+		rec.SrcCID, rec.SrcNID = p.SrcCID, p.SrcNID
+	}
+	l.net.mu.Lock()
+	l.net.processed = append(l.net.processed, rec)
+	l.net.mu.Unlock()
+	rpc.resp = rpc.req.rpcType().createResp(r, success, nil)
+	close(rpc.done)
+}
+
+// StopListener shuts the listener at addr down as Raft.Serve does on return
+// (server.shutdown, then wait for server.serve).
+func (n *VerifNet) StopListener(addr string) bool {
+	n.mu.Lock()
+	l := n.listeners[addr]
+	delete(n.listeners, addr)
+	n.mu.Unlock()
+	if l == nil {
+		return false
+	}
+	l.s.shutdown()
+	<-l.done
+	return true
+}
+
+// Close stops every listener and closes every dialer-side connection.
+func (n *VerifNet) Close() {
+	n.mu.Lock()
+	var addrs []string
+	for a := range n.listeners {
+		addrs = append(addrs, a)
+	}
+	pipes := append([]*VerifPipe{}, n.pipes...)
+	n.mu.Unlock()
+	for _, p := range pipes {
+		_ = p.client.Close()
+	}
+	for _, a := range addrs {
+		n.StopListener(a)
+	}
+}
+
+// ---------------------------------------------------------------- dialer
+
+type verifResolver struct {
+	mu    sync.Mutex
+	addrs map[uint64]string
+}
+
+func (r *verifResolver) LookupID(id uint64, timeout time.Duration) (string, error) {
+	r.mu.Lock()
+	defer r.mu.Unlock()
+	if a, ok := r.addrs[id]; ok {
+		return a, nil
+	}
+	return "", fmt.Errorf("verif: resolver knows no address for %d", id)
+}
+
+// VerifDialer is the dialing side of a node: a minimal *Raft with identity,
+// the real resolver and the real connection pools (made by the real getConnPool).
+type VerifDialer struct {
+	Index int
+	CID   uint64
+	NID   uint64
+
+	net     *VerifNet
+	r       *Raft
+	deleg   *verifResolver
+	curDest uint64
+	held    []*conn
+}
+
+// NewDialer creates the dialing side of node (cid, nid). With withResolver a user
+// Resolver is installed (its answers are set by SetResolver).
+func (n *VerifNet) NewDialer(cid, nid uint64, withResolver bool) *VerifDialer {
+	d := &VerifDialer{CID: cid, NID: nid, net: n}
+	res := &resolver{addrs: make(map[uint64]string), logger: nopLogger{}, alerts: nopAlerts{}}
+	if withResolver {
+		d.deleg = &verifResolver{addrs: map[uint64]string{}}
+		res.delegate = d.deleg
+	}
+	d.r = &Raft{
+		storage:   &storage{cid: cid, nid: nid},
+		resolver:  res,
+		connPools: make(map[uint64]*connPool),
+		logger:    nopLogger{},
+		alerts:    nopAlerts{},
+	}
+	d.r.dialFn = func(network, address string, timeout time.Duration) (net.Conn, error) {
+		c, _, err := n.dial(address, VerifPipe{Lib: true, Dialer: d.Index, SrcCID: cid, SrcNID: nid,
+			IntendedCID: cid, IntendedNID: d.curDest})
+		return c, err
+	}
+	n.mu.Lock()
+	d.Index = len(n.dialers)
+	n.dialers = append(n.dialers, d)
+	n.mu.Unlock()
+	return d
+}
+
+// UpdateConfig plays resolver.update(config) with the given id -> address bindings.
+func (d *VerifDialer) UpdateConfig(addrs map[uint64]string) {
+	c := Config{Nodes: map[uint64]Node{}}
+	for id, a := range addrs {
+		c.Nodes[id] = Node{ID: id, Addr: a}
+	}
+	d.r.resolver.update(c)
+}
+
+// SetResolver changes the answer of the user Resolver for nid (ok=false: it returns an error).
+func (d *VerifDialer) SetResolver(nid uint64, addr string, ok bool) {
+	if d.deleg == nil {
+		return
+	}
+	d.deleg.mu.Lock()
+	defer d.deleg.mu.Unlock()
+	if ok {
+		d.deleg.addrs[nid] = addr
+	} else {
+		delete(d.deleg.addrs, nid)
+	}
+}
+
+// Lookup is resolver.lookupID.
+func (d *VerifDialer) Lookup(nid uint64) string {
+	return d.r.resolver.lookupID(nid, VerifRPCTimeout)
+}
+
+func verifConnErr(err error) string {
+	switch err.(type) {
+	case nil:
+		return "ok"
+	case IdentityError:
+		return "identityErr"
+	}
+	if err == errVerifRefused {
+		return "dialErr"
+	}
+	return "ioErr"
+}
+
+// VerifRequest builds a request of the given rpcType (1 vote, 2 appendEntries with no
+// entries, 3 installSnap with an empty snapshot, 4 timeoutNow) and its response object.
+func VerifRequest(kind int, term, src uint64) (request, response, error) {
+	switch rpcType(kind) {
+	case rpcVote:
+		return &voteReq{req: req{term, src}, lastLogIndex: 3, lastLogTerm: 2}, &voteResp{}, nil
+	case rpcAppendEntries:
+		return &appendReq{req: req{term, src}, prevLogIndex: 3, prevLogTerm: 2, ldrCommitIndex: 1}, &appendResp{}, nil
+	case rpcInstallSnap:
+		return &installSnapReq{req: req{term, src}, lastIndex: 3, lastTerm: 2,
+			lastConfig: Config{Nodes: map[uint64]Node{}, Index: 1, Term: 1}}, &installSnapResp{}, nil
+	case rpcTimeoutNow:
+		return &timeoutNowReq{req{term, src}}, &timeoutNowResp{}, nil
+	}
+	return nil, nil, fmt.Errorf("verif: no request of kind %d", kind)
+}
+
+// DoRPC is the real connPool.doRPC on the pool made by the real getConnPool(dest).
+func (d *VerifDialer) DoRPC(dest uint64, kind int) (string, error) {
+	q, resp, err := VerifRequest(kind, 1, d.NID)
+	if err != nil {
+		return "", err
+	}
+	d.curDest = dest
+	pool := d.r.getConnPool(dest)
+	return verifConnErr(pool.doRPC(q, resp, time.Now().Add(VerifRPCTimeout))), nil
+}
+
+// GetConn is the real connPool.getConn; the connection is kept under the returned handle.
+func (d *VerifDialer) GetConn(dest uint64) (handle int, pipe int, class string) {
+	d.curDest = dest
+	pool := d.r.getConnPool(dest)
+	c, err := pool.getConn(time.Now().Add(VerifRPCTimeout))
+	if err != nil {
+		return -1, -1, verifConnErr(err)
+	}
+	d.held = append(d.held, c)
+	pipe = -1
+	if e, ok := c.rwc.(*verifEnd); ok {
+		pipe = e.pipe.ID
+	}
+	return len(d.held) - 1, pipe, "ok"
+}
+
+// Use is the second half of connPool.doRPC on a held connection:
+// `if err = c.doRPC(req, resp, deadline); err != nil { _ = c.rwc.Close() }` (without returnConn).
+func (d *VerifDialer) Use(handle int, kind int) (string, error) {
+	if handle < 0 || handle >= len(d.held) || d.held[handle] == nil {
+		return "noConn", nil
+	}
+	q, resp, err := VerifRequest(kind, 1, d.NID)
+	if err != nil {
+		return "", err
+	}
+	c := d.held[handle]
+	if err := c.doRPC(q, resp, time.Now().Add(VerifRPCTimeout)); err != nil {
+		_ = c.rwc.Close()
+		d.held[handle] = nil
+		return verifConnErr(err), nil
+	}
+	return "ok", nil
+}
+
+// ReturnConn is the real connPool.returnConn for a held connection.
+func (d *VerifDialer) ReturnConn(dest uint64, handle int) bool {
+	if handle < 0 || handle >= len(d.held) || d.held[handle] == nil {
+		return false
+	}
+	d.r.getConnPool(dest).returnConn(d.held[handle])
+	d.held[handle] = nil
+	return true
+}
+
+// CloseAll is the real connPool.closeAll.
+func (d *VerifDialer) CloseAll(dest uint64) { d.r.getConnPool(dest).closeAll() }
+
+// PoolLen is len(pool.conns).
+func (d *VerifDialer) PoolLen(dest uint64) int {
+	pool := d.r.getConnPool(dest)
+	pool.mu.Lock()
+	defer pool.mu.Unlock()
+	return len(pool.conns)
+}
+
+// PoolMax is pool.max as set by getConnPool.
+func (d *VerifDialer) PoolMax(dest uint64) int { return d.r.getConnPool(dest).max }
+
+// ---------------------------------------------------------------- a peer that is not this library
+
+// VerifRawConn is a connection dialled without connPool: nothing is sent on its own.
+type VerifRawConn struct {
+	c    *conn
+	Pipe int
+}
+
+// RawDial connects to addr like a foreign peer would.
+func (n *VerifNet) RawDial(addr string) (*VerifRawConn, bool) {
+	rwc, p, err := n.dial(addr, VerifPipe{Lib: false})
+	if err != nil {
+		return nil, false
+	}
+	c, _ := dial(func(string, string, time.Duration) (net.Conn, error) { return rwc, nil }, addr, time.Second)
+	return &VerifRawConn{c: c, Pipe: p.ID}, true
+}
+
+// Send writes one request (kind 0: identityReq{src,cid,nid}) with the real encoders and
+// reads the response with the real decoders. It returns "result:<n>" or "err".
+func (rc *VerifRawConn) Send(kind int, src, cid, nid uint64) string {
+	var q request
+	var resp response
+	if rpcType(kind) == rpcIdentity {
+		q, resp = &identityReq{req: req{src: src}, cid: cid, nid: nid}, &identityResp{}
+	} else {
+		var err error
+		if q, resp, err = VerifRequest(kind, 1, src); err != nil {
+			return "err"
+		}
+	}
+	if err := rc.c.doRPC(q, resp, time.Now().Add(VerifRPCTimeout)); err != nil {
+		return "err"
+	}
+	return fmt.Sprintf("result:%d", resp.getResult())
+}
+
+// Close closes the raw connection.
+func (rc *VerifRawConn) Close() { _ = rc.c.rwc.Close() }
+
+// ---------------------------------------------------------------- directory lock
+
+// VerifLockDir is lockDir.
+func VerifLockDir(dir string) error { return lockDir(dir) }
+
+// VerifUnlockDir is unlockDir.
+func VerifUnlockDir(dir string) error { return unlockDir(dir) }
+
+// VerifStoredIdentity reads the identity value file as openStorage does.
+func VerifStoredIdentity(dir string) (cid, nid uint64, err error) {
+	v, err := openValue(dir, ".id")
+	if err != nil {
+		return 0, 0, err
+	}
+	cid, nid = v.get()
+	return cid, nid, nil
+}
+
+// VerifIdentity returns (r.cid, r.nid).
+func (r *Raft) VerifIdentity() (uint64, uint64) { return r.cid, r.nid }
+
+// VerifNew calls New on dir and releases the storage again. It returns the identity the node carries.
+func VerifNew(dir string, opt Options) (cid, nid uint64, err error) {
+	r, err := New(opt, &VerifFSM{}, dir)
+	if err != nil {
+		return 0, 0, err
+	}
+	cid, nid = r.cid, r.nid
+	_ = r.storage.log.Close()
+	return cid, nid, nil
+}
+
+type verifServeLogger struct {
+	serving chan struct{}
+	once    sync.Once
+}
+
+func (l *verifServeLogger) Info(v ...interface{}) {
+	if len(v) > 0 {
+		if s, ok := v[0].(string); ok && s == "listening at" {
+			l.once.Do(func() { close(l.serving) })
+		}
+	}
+}
+func (l *verifServeLogger) Warn(v ...interface{}) {}
+
+// VerifServing is a node inside the unmodified Raft.Serve.
+type VerifServing struct {
+	R     *Raft
+	errCh chan error
+}
+
+// VerifServeStart calls New and then the unmodified Serve (on an in-memory listener) in a
+// goroutine. It returns once Serve is past lockDir and serving (handle, nil), or with the
+// error of New, or with the error Serve returned at once (ErrLockExists).
+func VerifServeStart(dir string, opt Options) (*VerifServing, error) {
+	lg := &verifServeLogger{serving: make(chan struct{})}
+	opt.Logger = lg
+	r, err := New(opt, &VerifFSM{}, dir)
+	if err != nil {
+		return nil, err
+	}
+	s := &VerifServing{R: r, errCh: make(chan error, 1)}
+	lr := &verifPipeListener{ch: make(chan net.Conn), closed: make(chan struct{})}
+	go func() { s.errCh <- r.Serve(lr) }()
+	select {
+	case <-lg.serving:
+		return s, nil
+	case err := <-s.errCh:
+		_ = r.storage.log.Close()
+		return nil, err
+	}
+}
+
+// Stop calls Shutdown, waits for Serve to return and gives back what Serve returned.
+func (s *VerifServing) Stop() error {
+	_ = s.R.Shutdown(context.Background())
+	err := <-s.errCh
+	_ = s.R.storage.log.Close()
+	return err
+}
